@@ -59,14 +59,13 @@ def coq_term(c, io):
     return f"(mkCase {cbytes(c['src'])} {out_coq(io[0])} {out_coq(io[1])})"
 
 
-K1 = "known_C08_comment_interpolation"
 K2 = "known_C08_style_dependent_evaluation"
 
 
 def judge(c, io, r):
-    p1, p2, p3, k1, k2 = r
+    p1, p2, p3, k2 = r
     return {"corr": None,
-            "clauses": [("same-outcome", p1 == 1, K1 if k1 else None),
+            "clauses": [("same-outcome", p1 == 1, None),
                         ("same-message", p2 == 1, None),
                         ("same-stylesheet", p3 == 1, K2 if k2 else None)],
             "nontrivial": io[0][0] == "ok" and bool(io[0][1][0]), "tags": [c["kind"], io[0][0] + "/" + io[1][0]],
@@ -78,7 +77,6 @@ LEVEL_TEXT = ("proof: for ALL comment-free css item trees whose leaf renderings 
               "byte-exact correspondence) emit the same bytes in the same order up to space / newline / `;`; the full predicate "
               "of the statement (same outcome, same message, same normalised stylesheet) is computed in Coq on rsass's two "
               "outputs for corpus and generated inputs")
-LEVEL_NOTE = ("partial: style-dependence of value formatting and of evaluation is explored, not proved (two known findings: F11 "
-              "comment interpolation errors vanish when compressed; new: text produced during evaluation is formatted with the "
-              "output style)")
+LEVEL_NOTE = ("partial: style-dependence of value formatting and of evaluation is explored, not proved (one known finding: text "
+              "produced during evaluation is formatted with the output style; F11 was fixed in rsass 775eadf)")
 TECHNIQUE = "Coq proof (lock-step induction over the item tree for the two writers) + predicate evaluation in Coq on implementation outputs"
